@@ -15,9 +15,15 @@ import project
 import tlc
 
 
+_VISITOR = []
+
+
 def render(node):
+    # one visitor instance for the whole run (visitors are reusable; state leaking between renderings must show)
     from odata_query.roundtrip import AstToODataVisitor
-    return AstToODataVisitor().visit(node)
+    if not _VISITOR:
+        _VISITOR.append(AstToODataVisitor())
+    return _VISITOR[0].visit(node)
 
 
 def classify(tree):
